@@ -636,7 +636,9 @@ func vfCorpusC11() []*vfWorldCase {
 
 var vfEvilURIs = []string{"//evil.example/x", "///evil.example/x", "////evil.example", "/%2F/evil.example", "/%5Cevil.example", "/.//evil.example",
 	"/;//evil.example", "//evil.example%2F..", "//evil.example/?a=b", "/ok/path?next=//evil.example", "/ok?u=https://evil.example",
-	"//user@evil.example", "//evil.example:8443/", "/%09/evil.example", "/%0a/evil.example", "//%2F%2Fevil.example", "/a//b", "//", "/", "/%2e%2e//evil.example"}
+	"//user@evil.example", "//evil.example:8443/", "/%09/evil.example", "/%0a/evil.example", "//%2F%2Fevil.example", "/a//b", "//", "/", "/%2e%2e//evil.example",
+	// raw backslashes as a non-browser client sends them (dot segments in front: path cleaning happens after the check)
+	"/./\\evil.example/", "/a/../\\evil.example/x", "/.\\evil.example", "/\\evil.example", "/x/..\\..//evil.example"}
 
 func vfGenC15(r *vfRand, id int) *vfWorldCase {
 	cfg := vfWorldCfg{PKCE: r.chance(1, 2), EndSession: r.chance(1, 2), GraceSec: 60,
